@@ -37,6 +37,12 @@ CMP = {ast.Lt: "lt", ast.LtE: "le", ast.Gt: "gt", ast.GtE: "ge", ast.Eq: "eq", a
 PRIOR = "0.0 if (variables := self.variables) is None else variables[-1].index[-1]"
 
 
+# how a protocol row is applied: whole row (NaN cells of parameters the step does not name included) or only the
+# values the step gives
+UPDATE_ROW = {"self.model.update_parameters(pars.to_dict())": False,
+              "self.model.update_parameters(pars.dropna().to_dict())": True}
+
+
 def _u(node: ast.AST) -> str:
     return ast.unparse(node)
 
@@ -108,10 +114,7 @@ def _default(fn: ast.FunctionDef, name: str, what: str):
     raise Unsupported(f"{what}: no default for {name}")
 
 
-def simulator_facts(src: str) -> dict:
-    tree = ast.parse(src)
-    f: dict = {}
-    # ---- simulate
+def _sec_simulate(tree, f):
     b = _body(find_function(tree, "simulate", "Simulator"))
     if _u(b[0]) != "if len(self._errors) > 0:\n    return self":
         raise Unsupported(f"simulate: first statement `{_u(b[0])}`")
@@ -125,7 +128,9 @@ def simulator_facts(src: str) -> dict:
     if not (ip < ir and ir < ih and ish < ih):
         raise Unsupported("simulate: statement order")
     f["simulateChecksBeforeShift"] = ir < ish
-    # ---- simulate_time_course
+
+
+def _sec_time_course(tree, f):
     b = _body(find_function(tree, "simulate_time_course", "Simulator"))
     if _u(b[0]) != "if len(self._errors) > 0:\n    return self":
         raise Unsupported(f"simulate_time_course: first statement `{_u(b[0])}`")
@@ -156,12 +161,16 @@ def simulator_facts(src: str) -> dict:
     if (ir < ish) != (ifl < ish):
         raise Unsupported("simulate_time_course: refusal test and overlap filter on different sides of the shift")
     f["timeCourseChecksBeforeShift"] = ir < ish
-    # ---- simulate_to_steady_state
+
+
+def _sec_steady(tree, f):
     b = _body(find_function(tree, "simulate_to_steady_state", "Simulator"))
     if _u(b[0]) != "if len(self._errors) > 0:\n    return self":
         raise Unsupported(f"simulate_to_steady_state: first statement `{_u(b[0])}`")
     _, f["steadySkipfirst"] = _handle_call(b, "self.integrator.integrate_to_steady_state(", "steady state")
-    # ---- _handle_simulation_results
+
+
+def _sec_handle(tree, f):
     fn = find_function(tree, "_handle_simulation_results", "Simulator")
     m = [s for s in _body(fn) if isinstance(s, ast.Match)]
     if len(m) != 1 or len(m[0].cases) != 2:
@@ -184,7 +193,9 @@ def simulator_facts(src: str) -> dict:
     if [_u(s) for s in err_case.body] != ["self._errors.append(e)"]:
         raise Unsupported("_handle_simulation_results: failure branch")
     f["handleShape"] = True
-    # ---- update_variables
+
+
+def _sec_update_variables(tree, f):
     b = _body(find_function(tree, "update_variables", "Simulator"))
     ub = [_u(s) for s in b]
     pre = [
@@ -202,7 +213,9 @@ def simulator_facts(src: str) -> dict:
         f["updVarsKeepsAtSameTime"] = False
     else:
         raise Unsupported(f"update_variables: `{mid}`")
-    # ---- clear_results
+
+
+def _sec_clear(tree, f):
     b = [_u(s) for s in _body(find_function(tree, "clear_results", "Simulator"))]
     f["clearResetsShift"] = "self._time_shift = None" in b
     f["clearResetsErrors"] = "self._errors = []" in b
@@ -210,7 +223,9 @@ def simulator_facts(src: str) -> dict:
     if rest != ["self.variables = None", "self.dependent = None", "self.simulation_parameters = None",
                 "self._initialise_integrator()"]:
         raise Unsupported(f"clear_results: {rest}")
-    # ---- simulate_protocol
+
+
+def _sec_protocol(tree, f):
     fn = find_function(tree, "simulate_protocol", "Simulator")
     f["defaultTimePointsPerStep"] = int(_default(fn, "time_points_per_step", "simulate_protocol"))
     b = _body(fn)
@@ -218,14 +233,19 @@ def simulator_facts(src: str) -> dict:
     if len(loop) != 1 or _u(loop[0].iter) != "protocol.iterrows()" or _u(loop[0].target) != "(t_end, pars)":
         raise Unsupported("simulate_protocol: loop header")
     lb = [_u(s) for s in loop[0].body]
-    if lb != ["t_end = cast(pd.Timedelta, t_end)", "self.model.update_parameters(pars.to_dict())",
+    if len(lb) != 4 or lb[1] not in UPDATE_ROW:
+        raise Unsupported(f"simulate_protocol: loop body {lb}")
+    f["protocolSkipsUnnamed"] = UPDATE_ROW[lb[1]]
+    if lb != ["t_end = cast(pd.Timedelta, t_end)", lb[1],
               "self.simulate(t_start + t_end.total_seconds(), steps=time_points_per_step)",
               "if self.variables is None:\n    break"]:
         raise Unsupported(f"simulate_protocol: loop body {lb}")
     it = _index(b, lambda s: isinstance(s, ast.Assign) and _u(s.targets[0]) == "t_start", "simulate_protocol: t_start")
     if _u(b[it].value) != PRIOR:
         raise Unsupported("simulate_protocol: t_start")
-    # ---- simulate_protocol_time_course
+
+
+def _sec_protocol_tc(tree, f):
     fn = find_function(tree, "simulate_protocol_time_course", "Simulator")
     f["defaultRelative"] = bool(_default(fn, "time_points_as_relative", "simulate_protocol_time_course"))
     b = _body(fn)
@@ -245,9 +265,10 @@ def simulator_facts(src: str) -> dict:
     if len(loop) != 1 or _u(loop[0].iter) != "protocol.iterrows()" or _u(loop[0].target) != "(t_end, pars)":
         raise Unsupported("simulate_protocol_time_course: loop header")
     lb = loop[0].body
-    if len(lb) != 4 or _u(lb[0]) != "self.model.update_parameters(pars.to_dict())" or _u(lb[2]) != "t_start = t_end" \
+    if len(lb) != 4 or _u(lb[0]) not in UPDATE_ROW or _u(lb[2]) != "t_start = t_end" \
             or _u(lb[3]) != "if self.variables is None:\n    break":
         raise Unsupported("simulate_protocol_time_course: loop body")
+    f["protocolTCSkipsUnnamed"] = UPDATE_ROW[_u(lb[0])]
     call = lb[1].value if isinstance(lb[1], ast.Expr) else None
     if not (isinstance(call, ast.Call) and _u(call.func) == "self.simulate_time_course"):
         raise Unsupported("simulate_protocol_time_course: simulate_time_course call")
@@ -257,13 +278,9 @@ def simulator_facts(src: str) -> dict:
         raise Unsupported(f"simulate_protocol_time_course: selection `{_u(sel)}`")
     f["selectLo"] = _cmp(sel.slice.left, "full_time_points", "t_start", "protocol tc selection (lower)")
     f["selectHi"] = _cmp(sel.slice.right, "full_time_points", "t_end", "protocol tc selection (upper)")
-    return f
 
 
-def scipy_facts(src: str) -> dict:
-    tree = ast.parse(src)
-    f: dict = {}
-    # ---- integrate
+def _sec_integrate(tree, f):
     b = [_u(s) for s in _body(find_function(tree, "integrate", "Scipy"))]
     if len(b) != 2 or b[1] != "return self.integrate_time_course(time_points=np.linspace(self.t0, t_end, steps, dtype=float))":
         raise Unsupported(f"Scipy.integrate: {b}")
@@ -276,7 +293,9 @@ def scipy_facts(src: str) -> dict:
         raise Unsupported(f"Scipy.integrate: `{b[0]}`")
     f["defaultPoints"] = int(st.value.body.value)
     f["stepsPlus"] = int(st.value.orelse.right.value)
-    # ---- integrate_time_course
+
+
+def _sec_integrate_tc(tree, f):
     b = _body(find_function(tree, "integrate_time_course", "Scipy"))
     if not (isinstance(b[0], ast.If) and not b[0].orelse
             and [_u(s) for s in b[0].body] == ["time_points = np.insert(time_points, 0, self.t0)"]):
@@ -295,11 +314,15 @@ def scipy_facts(src: str) -> dict:
     kws = {k.arg: _u(k.value) for k in solve[0].value.keywords}
     if kws.get("y0") != "self.y0" or kws.get("t_span") != "(time_points[0], time_points[-1])" or kws.get("t_eval") != "time_points":
         raise Unsupported(f"Scipy.integrate_time_course: solve_ivp arguments {kws}")
-    # ---- reset
+
+
+def _sec_reset(tree, f):
     b = [_u(s) for s in _body(find_function(tree, "reset", "Scipy"))]
     if b != ["self.t0 = 0", "self.y0 = self._y0_orig"]:
         raise Unsupported(f"Scipy.reset: {b}")
-    # ---- integrate_to_steady_state
+
+
+def _sec_steady_search(tree, f):
     fn = find_function(tree, "integrate_to_steady_state", "Scipy")
     f["stepSize"] = int(_default(fn, "step_size", "integrate_to_steady_state"))
     f["maxSteps"] = int(_default(fn, "max_steps", "integrate_to_steady_state"))
@@ -344,7 +367,43 @@ def scipy_facts(src: str) -> dict:
         f["steadyAdvances"] = True
     else:
         raise Unsupported(f"integrate_to_steady_state: success branch {adv}")
-    return f
+
+
+SIM_SECTIONS = [_sec_simulate, _sec_time_course, _sec_steady, _sec_handle, _sec_update_variables, _sec_clear,
+                _sec_protocol, _sec_protocol_tc]
+SCIPY_SECTIONS = [_sec_integrate, _sec_integrate_tc, _sec_reset, _sec_steady_search]
+
+# the values Model/C04.lean, Model/C14.lean and their lemmas were written against.  A section of the source that has
+# left the supported shapes keeps these values *and* is listed in `Gen.unsupported` (Lemmas/C04.lean proves that list
+# empty, so every theorem stops checking); the executable model then still runs as the code it was written against
+# and the failing-input search compares the real code with it.
+EXPECTED = {
+    "simulateRefusal": "le", "timeCourseRefusal": "le", "timeCourseKeep": "ge", "prependCmp": "ne",
+    "protocolTCRefusal": "le", "selectLo": "gt", "selectHi": "le",
+    "simulateSkipfirst": True, "timeCourseSkipfirst": True, "steadySkipfirst": False,
+    "simulateChecksBeforeShift": True, "timeCourseChecksBeforeShift": True, "handleShape": True,
+    "updVarsKeepsAtSameTime": True, "clearResetsShift": True, "clearResetsErrors": True, "defaultRelative": False,
+    "steadyResets": False, "steadyStartsAtT0": True, "steadyAdvances": True,
+    "protocolSkipsUnnamed": True, "protocolTCSkipsUnnamed": True,
+    "defaultPoints": 100, "stepsPlus": 1, "stepSize": 100, "maxSteps": 1000, "defaultTimePointsPerStep": 10,
+}
+
+
+def _run_sections(src: str, sections, f: dict, errors: list[str]) -> None:
+    try:
+        tree = ast.parse(src)
+    except SyntaxError as e:
+        errors.append(f"syntax error: {e}")
+        return
+    for sec in sections:
+        g: dict = {}
+        try:
+            sec(tree, g)
+            f.update(g)
+        except Unsupported as e:
+            errors.append(str(e))
+        except Exception as e:  # noqa: BLE001  (an index error on an unexpected statement list, ...)
+            errors.append(f"{sec.__name__}: {e!r}")
 
 
 CMP_DECL = """/-- a comparison operator as written in the source -/
@@ -365,7 +424,8 @@ def Cmp.eval : Cmp → Rat → Rat → Bool
 CMPS = ["simulateRefusal", "timeCourseRefusal", "timeCourseKeep", "prependCmp", "protocolTCRefusal", "selectLo", "selectHi"]
 BOOLS = ["simulateSkipfirst", "timeCourseSkipfirst", "steadySkipfirst", "simulateChecksBeforeShift",
          "timeCourseChecksBeforeShift", "handleShape", "updVarsKeepsAtSameTime", "clearResetsShift", "clearResetsErrors",
-         "defaultRelative", "steadyResets", "steadyStartsAtT0", "steadyAdvances"]
+         "defaultRelative", "steadyResets", "steadyStartsAtT0", "steadyAdvances", "protocolSkipsUnnamed",
+         "protocolTCSkipsUnnamed"]
 NATS = ["defaultPoints", "stepsPlus", "stepSize", "maxSteps", "defaultTimePointsPerStep"]
 
 DOC = {
@@ -389,6 +449,8 @@ DOC = {
     "steadyResets": "Scipy.integrate_to_steady_state calls `self.reset()` first",
     "steadyStartsAtT0": "… starts the ode object at `self.t0` (`set_initial_value(self.y0, self.t0)`)",
     "steadyAdvances": "… sets `self.t0 = t; self.y0 = y2` on success",
+    "protocolSkipsUnnamed": "simulate_protocol applies `pars.dropna().to_dict()`: a step only sets the parameters it names",
+    "protocolTCSkipsUnnamed": "simulate_protocol_time_course applies `pars.dropna().to_dict()`",
     "defaultPoints": "Scipy.integrate: `steps = <this> if steps is None else steps + …`",
     "stepsPlus": "Scipy.integrate: `… else steps + <this>`",
     "stepSize": "Scipy.integrate_to_steady_state: default `step_size`",
@@ -397,41 +459,45 @@ DOC = {
 }
 
 
-def render(f: dict | None, err: str = "") -> str:
+def render(f: dict, errors: list[str]) -> str:
     out = ["-- GENERATED by translate/c04.py from src/mxlpy/simulator.py and src/mxlpy/integrators/int_scipy.py; do not edit",
            "namespace Mxl.C04.Gen", CMP_DECL]
-    if f is None:
-        out.append("/- UNSUPPORTED source shape: " + err[:600].replace("-/", "- /") + " -/")
+    esc = [e[:300].replace("\\", "/").replace('"', "'").replace("\n", " ") for e in errors]
+    out.append("/-- sections of the source that have left the shapes translate/c04.py reads (their facts below keep the\n"
+               "    values the model was written against); `Lemmas/C04.lean` proves this list empty -/")
+    out.append("def unsupported : List String := [" + ", ".join(f'"{e}"' for e in esc) + "]")
     for k in CMPS:
-        out.append(f"/-- {DOC[k]} -/\ndef {k} : Cmp := .{f[k] if f else 'unsupported'}")
+        out.append(f"/-- {DOC[k]} -/\ndef {k} : Cmp := .{f.get(k, EXPECTED[k])}")
     for k in BOOLS:
-        # an unsupported shape yields the value the lemmas do NOT expect for at least `handleShape`
-        v = ("true" if f[k] else "false") if f else "false"
-        out.append(f"/-- {DOC[k]} -/\ndef {k} : Bool := {v}")
+        v = f.get(k, EXPECTED[k])
+        out.append(f"/-- {DOC[k]} -/\ndef {k} : Bool := {'true' if v else 'false'}")
     for k in NATS:
-        out.append(f"/-- {DOC[k]} -/\ndef {k} : Nat := {f[k] if f else 0}")
+        out.append(f"/-- {DOC[k]} -/\ndef {k} : Nat := {f.get(k, EXPECTED[k])}")
     out.append("end Mxl.C04.Gen\n")
     return "\n".join(out)
 
 
-def facts(repo: Path) -> dict:
-    f = simulator_facts((Path(repo) / "src" / "mxlpy" / "simulator.py").read_text())
-    f.update(scipy_facts((Path(repo) / "src" / "mxlpy" / "integrators" / "int_scipy.py").read_text()))
-    return f
+def facts(repo: Path) -> tuple[dict, list[str]]:
+    f: dict = {}
+    errors: list[str] = []
+    _run_sections((Path(repo) / "src" / "mxlpy" / "simulator.py").read_text(), SIM_SECTIONS, f, errors)
+    _run_sections((Path(repo) / "src" / "mxlpy" / "integrators" / "int_scipy.py").read_text(), SCIPY_SECTIONS, f, errors)
+    return f, errors
 
 
 def generate(repo: Path, outdir: Path) -> bool:
     out = Path(outdir) / "C04Facts.lean"
-    try:
-        f = facts(Path(repo))
-    except Exception as e:
-        write_if_changed(out, render(None, repr(e)))
-        raise
-    return write_if_changed(out, render(f))
+    f, errors = facts(Path(repo))
+    changed = write_if_changed(out, render(f, errors))
+    if errors:
+        raise Unsupported("; ".join(errors))
+    return changed
 
 
 if __name__ == "__main__":
     import os
     root = Path(__file__).resolve().parent.parent
-    generate(Path(os.environ.get("MXLPY_REPO", "/repo")), root / "lean" / "MxlVerif" / "MxlVerif" / "Generated")
-    print((root / "lean/MxlVerif/MxlVerif/Generated/C04Facts.lean").read_text())
+    try:
+        generate(Path(os.environ.get("MXLPY_REPO", "/repo")), root / "lean" / "MxlVerif" / "MxlVerif" / "Generated")
+    finally:
+        print((root / "lean/MxlVerif/MxlVerif/Generated/C04Facts.lean").read_text())
